@@ -396,3 +396,35 @@ pub fn mirror_pairs(s: &State) -> Vec<(u32, u32)> {
     }
     out
 }
+
+/// Template "a face is closed, then 3-sewn": returns an initial state in which one face of a
+/// mirror pair (l, r) is open at one place, the operation that closes it again and the 3-sew of
+/// the pair. In sequence (or in either serial order where both succeed) the 3-sew must see the
+/// closed face.
+pub fn closing_then_three_sew(rng: &mut Rng, s: &State) -> Option<(State, crate::ops::Op, crate::ops::Op)> {
+    let pairs = mirror_pairs(s);
+    if pairs.is_empty() {
+        return None;
+    }
+    let (l, r) = *rng.pick(&pairs);
+    let side = if rng.chance(0.5) { l } else { r };
+    let face = s.face_walk(side, true).fwd;
+    let x = *rng.pick(&face);
+    let y = s.b(1, x);
+    let mut t = s.clone();
+    // open the face at x -> y (keep all data where it is)
+    t.beta[x as usize][1] = 0;
+    t.beta[y as usize][0] = 0;
+    // opening may split the vertex at y for the model; coordinates stay attached to old ids,
+    // make sure both resulting vertex cells carry the coordinates so that sews can proceed
+    let (p_old, p_new) = (s.partition(0), t.partition(0));
+    for d in 1..t.n() as u32 {
+        let (o, n) = (p_old[d as usize], p_new[d as usize]);
+        if t.vtx[n as usize].is_none() {
+            t.vtx[n as usize] = s.vtx[o as usize];
+        }
+    }
+    let close = if rng.chance(0.7) { crate::ops::Op::Sew { i: 1, l: x, r: y } } else { crate::ops::Op::Link { i: 1, l: x, r: y } };
+    let sew3 = if rng.chance(0.8) { crate::ops::Op::Sew { i: 3, l, r } } else { crate::ops::Op::Link { i: 3, l, r } };
+    Some((t, close, sew3))
+}
